@@ -8,6 +8,7 @@ import (
 	"io"
 	"net/http"
 	"os"
+	"path/filepath"
 	"sort"
 	"time"
 
@@ -233,5 +234,98 @@ func recreatedAfterDrop(c *common.Ctx, r *common.Rand) error {
 		}
 		_ = db.Unlock(bg, owner, []litefs.LockType{litefs.LockTypeShared})
 	}
+	return nil
+}
+
+// haltReleaseUnderReader: a replica that holds the remote halt lock has committed a WAL transaction; another local
+// connection is reading (SHARED, READ1) when the application gives the halt lock up. Giving it up makes LiteFS
+// checkpoint - which is LiteFS writing the database file on its own, so it has to wait for the reader.
+func haltReleaseUnderReader(c *common.Ctx, r *common.Rand) error {
+	dir, err := os.MkdirTemp(c.OutDir, "c11h-")
+	if err != nil {
+		return err
+	}
+	defer os.RemoveAll(dir)
+	clu := cluster.New(dir, 2*time.Second)
+	defer clu.Close()
+	p, err := clu.Start("p", true)
+	if err != nil {
+		return err
+	}
+	if clu.WaitPrimary(5*time.Second) == nil {
+		return fmt.Errorf("no primary")
+	}
+	rn, err := clu.Start("r", false)
+	if err != nil {
+		return err
+	}
+	hp := hist.NewOn(c, r.Fork(), hist.Config{PageSize: 512, AllowWAL: true, ForceWAL: true}, p.Store, p.Exits, "db", nil, 0, false)
+	for done, tries := 0, 0; done < 3 && tries < 300; tries++ {
+		st := hp.GenStep()
+		if st.Op != "rtx" && st.Op != "wtx" {
+			continue
+		}
+		if st.Op == "rtx" {
+			st.Outcome = 0
+		}
+		if ob := hp.Exec(st); ob.Captured && ob.Err == "" {
+			done++
+		}
+	}
+	pp := p.Store.DB("db").Pos()
+	if !cluster.WaitPos(rn, "db", uint64(pp.TXID), uint64(pp.PostApplyChecksum), 10*time.Second) {
+		return fmt.Errorf("replica did not catch up")
+	}
+	rdb := rn.Store.DB("db")
+	bg := context.Background()
+	if _, err := rdb.AcquireRemoteHaltLock(bg, 91); err != nil {
+		return fmt.Errorf("halt: %v", err)
+	}
+	cur, _ := lfs.ReadImage(filepath.Dir(rdb.DatabasePath()))
+	hr := hist.NewOn(c, r.Fork(), hist.Config{PageSize: 512, AllowWAL: true}, rn.Store, rn.Exits, "db", cur, uint64(rdb.Pos().TXID), true)
+	hr.Pager.AttachWAL(uint32(r.U64()), uint32(r.U64()))
+	committed := false
+	for tries := 0; tries < 200 && !committed; tries++ {
+		st := hr.GenStep()
+		if st.Op != "wtx" {
+			continue
+		}
+		st.Aborted = nil
+		t0 := rdb.Pos().TXID
+		hr.Exec(st)
+		committed = rdb.Pos().TXID == t0+1
+	}
+	if !committed {
+		return fmt.Errorf("the replica's WAL commit under the halt lock did not go through")
+	}
+	walBefore, _ := os.Stat(rdb.WALPath())
+	const owner = 22
+	if !rdb.TryRLocks(bg, owner, []litefs.LockType{litefs.LockTypePending}) || !rdb.TryRLocks(bg, owner, []litefs.LockType{litefs.LockTypeShared}) {
+		return fmt.Errorf("reader: shared refused")
+	}
+	_ = rdb.Unlock(bg, owner, []litefs.LockType{litefs.LockTypePending})
+	_ = rdb.TryRLocks(bg, owner, []litefs.LockType{litefs.LockTypeDMS})
+	_ = rdb.TryRLocks(bg, owner, []litefs.LockType{litefs.LockTypeRead1})
+	dbBefore := fileHash(rdb.DatabasePath())
+	rctx, cancel := context.WithTimeout(bg, 300*time.Millisecond)
+	relErr := rdb.ReleaseRemoteHaltLock(rctx, 91)
+	cancel()
+	dbAfter := fileHash(rdb.DatabasePath())
+	walAfter, _ := os.Stat(rdb.WALPath())
+	c.Evaluations++
+	c.Distinct("halt-release-under-reader")
+	rep := map[string]any{"kind": "halt-release-under-reader", "release_error": fmt.Sprint(relErr)}
+	var wb, wa int64
+	if walBefore != nil {
+		wb = walBefore.Size()
+	}
+	if walAfter != nil {
+		wa = walAfter.Size()
+	}
+	if dbAfter != dbBefore || wa != wb {
+		c.Violate("C11:halt-release-under-reader:checkpointed", fmt.Sprintf("while a connection held SHARED and READ1, giving up the remote halt lock (answer: %v) made LiteFS checkpoint: database file %s -> %s, log %d -> %d bytes", relErr, dbBefore, dbAfter, wb, wa), rep)
+	}
+	_ = rdb.Unlock(bg, owner, []litefs.LockType{litefs.LockTypeShared, litefs.LockTypeRead1, litefs.LockTypeDMS})
+	_ = rdb.ReleaseRemoteHaltLock(bg, 91)
 	return nil
 }
